@@ -92,6 +92,19 @@ func findDispatches(c *Ctx, named *types.Named) []*progDispatch {
 							d.cases[kv] = append(d.cases[kv], sc)
 						}
 					}
+					// a function value selected in this branch (return pd.decodeLRCP)
+					if mc, ok := ins.(*ssa.MakeClosure); ok {
+						if f, ok := mc.Fn.(*ssa.Function); ok && f.Blocks != nil {
+							d.cases[kv] = append(d.cases[kv], f)
+						}
+					}
+					if ret, ok := ins.(*ssa.Return); ok {
+						for _, r := range ret.Results {
+							if f, ok := r.(*ssa.Function); ok && f.Blocks != nil {
+								d.cases[kv] = append(d.cases[kv], f)
+							}
+						}
+					}
 				}
 			}
 			if _, ok := d.cases[kv]; !ok {
@@ -118,13 +131,155 @@ func findDispatches(c *Ctx, named *types.Named) []*progDispatch {
 			out = append(out, d)
 		}
 	}
+	out = append(out, findTableDispatches(c, named)...)
 	return out
 }
 
-// packetDims: if sc is a per-packet function (name ends in Packet, parameters named after the four
-// progression dimensions), the parameter index of each dimension.
+// fnOfValue: the function a function-typed value denotes (method expression, thunk, closure).
+func fnOfValue(v ssa.Value) *ssa.Function {
+	switch x := v.(type) {
+	case *ssa.Function:
+		return x
+	case *ssa.MakeClosure:
+		f, _ := x.Fn.(*ssa.Function)
+		return f
+	case *ssa.ChangeType:
+		return fnOfValue(x.X)
+	}
+	return nil
+}
+
+// findTableDispatches: a dispatch written as a table of functions indexed (array / slice) or keyed
+// (map) by a ProgressionOrder value — package-level or local — whose selected entry is called.
+func findTableDispatches(c *Ctx, named *types.Named) []*progDispatch {
+	isProg := func(v ssa.Value) bool {
+		v = stripConv(v)
+		return types.Identical(v.Type(), named)
+	}
+	// entries of a table value: global (filled by the package initialiser) or local
+	entriesOf := func(table ssa.Value, user *ssa.Function) map[int64]*ssa.Function {
+		out := map[int64]*ssa.Function{}
+		var scan []*ssa.Function
+		var isTable func(v ssa.Value) bool
+		switch t := table.(type) {
+		case *ssa.Global:
+			if t.Pkg != nil {
+				if ini := t.Pkg.Func("init"); ini != nil {
+					scan = append(scan, ini)
+				}
+			}
+			isTable = func(v ssa.Value) bool { return v == ssa.Value(t) }
+		default:
+			scan = append(scan, user)
+			isTable = func(v ssa.Value) bool { return v == table }
+		}
+		for _, f := range scan {
+			// maps: find the map values stored into the table variable
+			maps := map[ssa.Value]bool{}
+			for _, b := range f.Blocks {
+				for _, ins := range b.Instrs {
+					if st, ok := ins.(*ssa.Store); ok && isTable(st.Addr) {
+						maps[st.Val] = true
+						// an array literal is built in a local and copied into the variable
+						if u, ok := st.Val.(*ssa.UnOp); ok && u.Op == token.MUL {
+							maps[u.X] = true
+						}
+					}
+				}
+			}
+			for _, b := range f.Blocks {
+				for _, ins := range b.Instrs {
+					switch x := ins.(type) {
+					case *ssa.Store:
+						ia, ok := x.Addr.(*ssa.IndexAddr)
+						if !ok {
+							continue
+						}
+						base := ia.X
+						if sl, ok := base.(*ssa.Slice); ok {
+							base = sl.X
+						}
+						if !isTable(base) && !maps[base] {
+							continue
+						}
+						k, ok := ia.Index.(*ssa.Const)
+						if !ok || k.Value == nil {
+							continue
+						}
+						if fn := fnOfValue(x.Val); fn != nil {
+							out[k.Int64()] = fn
+						}
+					case *ssa.MapUpdate:
+						if !maps[x.Map] && !isTable(x.Map) {
+							continue
+						}
+						k, ok := stripConv(x.Key).(*ssa.Const)
+						if !ok || k.Value == nil {
+							continue
+						}
+						if fn := fnOfValue(x.Value); fn != nil {
+							out[k.Int64()] = fn
+						}
+					}
+				}
+			}
+		}
+		return out
+	}
+	var out []*progDispatch
+	for _, fn := range c.scopeFuncs() {
+		for _, b := range fn.Blocks {
+			for _, ins := range b.Instrs {
+				call, ok := ins.(ssa.CallInstruction)
+				if !ok || call.Common().IsInvoke() || call.Common().StaticCallee() != nil {
+					continue
+				}
+				v := call.Common().Value
+				if ex, ok := v.(*ssa.Extract); ok {
+					v = ex.Tuple
+				}
+				var table, index ssa.Value
+				switch x := v.(type) {
+				case *ssa.UnOp:
+					if ia, ok := x.X.(*ssa.IndexAddr); ok && x.Op == token.MUL {
+						table, index = ia.X, ia.Index
+					}
+				case *ssa.Lookup:
+					table, index = x.X, x.Index
+				case *ssa.Index:
+					table, index = x.X, x.Index
+				}
+				if table == nil || !isProg(index) {
+					continue
+				}
+				// a map / slice table is loaded from its variable first
+				if u, ok := table.(*ssa.UnOp); ok && u.Op == token.MUL {
+					table = u.X
+				}
+				if sl, ok := table.(*ssa.Slice); ok {
+					table = sl.X
+				}
+				ents := entriesOf(table, fn)
+				if len(ents) < 2 {
+					continue
+				}
+				d := &progDispatch{fn: fn, cases: map[int64][]*ssa.Function{}, tagExpr: addrExpr(index) + " (function table)"}
+				for k, f := range ents {
+					d.cases[k] = []*ssa.Function{f}
+				}
+				// default: an out-of-table value must not reach the call; reported as observation only
+				d.hasDef = true
+				out = append(out, d)
+			}
+		}
+	}
+	return out
+}
+
+// packetDims: if sc is a per-packet function (integer parameters named after all four progression
+// dimensions: layer*, res*, comp*, precinct*), the parameter index of each dimension.
 func packetDims(sc *ssa.Function) map[string]int {
-	if sc == nil || !strings.HasSuffix(sc.Name(), "Packet") || sc.Signature.Params().Len() < 4 {
+	if sc == nil || sc.Signature.Params().Len() < 4 {
 		return nil
 	}
 	dims := map[string]int{}
@@ -160,8 +315,87 @@ func packetDims(sc *ssa.Function) map[string]int {
 // of the parameter of fn that carries it (-1: computed locally, e.g. looked up from a position).
 type loopNest struct {
 	labels     []string
-	unresolved map[string]int
+	unresolved map[string]dimRef
 	site       ssa.Instruction
+}
+
+// dimRef: where a not-yet-bound dimension enters the function: parameter index, and the field of
+// that parameter when the dimensions travel together in a struct (field < 0: the parameter itself).
+type dimRef struct{ param, field int }
+
+// dimSource resolves the value v of a dimension inside fn to a parameter (or a field of a struct
+// parameter) of fn.
+func dimSource(fn *ssa.Function, v ssa.Value) (dimRef, bool) {
+	v = stripConv(v)
+	if pi := paramIndex(fn, v); pi >= 0 {
+		return dimRef{pi, -1}, true
+	}
+	switch x := v.(type) {
+	case *ssa.Field:
+		if pi := paramIndex(fn, x.X); pi >= 0 {
+			return dimRef{pi, x.Field}, true
+		}
+	case *ssa.UnOp:
+		if x.Op != token.MUL {
+			break
+		}
+		fa, ok := x.X.(*ssa.FieldAddr)
+		if !ok {
+			break
+		}
+		// pointer-to-struct parameter, or a by-value parameter spilled to a local
+		if pi := paramIndex(fn, fa.X); pi >= 0 {
+			return dimRef{pi, fa.Field}, true
+		}
+		if al, ok := fa.X.(*ssa.Alloc); ok && al.Referrers() != nil {
+			for _, r := range *al.Referrers() {
+				if st, ok := r.(*ssa.Store); ok && st.Addr == ssa.Value(al) {
+					if pi := paramIndex(fn, st.Val); pi >= 0 {
+						return dimRef{pi, fa.Field}, true
+					}
+				}
+			}
+		}
+	}
+	return dimRef{}, false
+}
+
+// argOfDim: the value that call argument arg carries for ref (the argument itself, or the field of
+// the struct literal / struct value passed).
+func argOfDim(arg ssa.Value, ref dimRef) ssa.Value {
+	if ref.field < 0 {
+		return arg
+	}
+	// struct built in place: t = local T (complit); t.f = v; ... ; arg = *t   (or arg = t for *T)
+	var al *ssa.Alloc
+	switch x := arg.(type) {
+	case *ssa.UnOp:
+		if x.Op == token.MUL {
+			al, _ = x.X.(*ssa.Alloc)
+		}
+	case *ssa.Alloc:
+		al = x
+	}
+	if al != nil && al.Referrers() != nil {
+		var val ssa.Value
+		n := 0
+		for _, r := range *al.Referrers() {
+			fa, ok := r.(*ssa.FieldAddr)
+			if !ok || fa.Field != ref.field || fa.Referrers() == nil {
+				continue
+			}
+			for _, u := range *fa.Referrers() {
+				if st, ok := u.(*ssa.Store); ok && st.Addr == ssa.Value(fa) {
+					val = st.Val
+					n++
+				}
+			}
+		}
+		if n == 1 {
+			return val
+		}
+	}
+	return nil
 }
 
 func stripConv(v ssa.Value) ssa.Value {
@@ -199,15 +433,28 @@ func loopNests(fn *ssa.Function, depth int, visiting map[*ssa.Function]bool) []l
 			}
 			var inner []loopNest
 			if dims := packetDims(sc); dims != nil {
-				inner = []loopNest{{unresolved: dims, site: ins}}
+				un := map[string]dimRef{}
+				for d, pi := range dims {
+					un[d] = dimRef{pi, -1}
+				}
+				inner = []loopNest{{unresolved: un, site: ins}}
 			} else {
 				inner = loopNests(sc, depth+1, visiting)
 			}
 			for _, in := range inner {
 				vals := map[string]ssa.Value{}
-				for d, pi := range in.unresolved {
-					if pi >= 0 && pi < len(call.Common().Args) {
-						vals[d] = call.Common().Args[pi]
+				passOn := map[string]dimRef{}
+				for d, ref := range in.unresolved {
+					if ref.param >= 0 && ref.param < len(call.Common().Args) {
+						if v := argOfDim(call.Common().Args[ref.param], ref); v != nil {
+							vals[d] = v
+						} else if ref.field >= 0 {
+							// the struct is passed on as it was received: still carried by a field
+							vals[d] = nil
+							if r2, ok := dimSource(fn, call.Common().Args[ref.param]); ok && r2.field < 0 {
+								passOn[d] = dimRef{r2.param, ref.field}
+							}
+						}
 					}
 				}
 				var encl []*natLoop
@@ -222,7 +469,7 @@ func loopNests(fn *ssa.Function, depth int, visiting map[*ssa.Function]bool) []l
 				for _, l := range encl {
 					label := "?"
 					for _, d := range []string{"L", "R", "C", "P"} {
-						if v, open := vals[d]; open && !used[d] && directInduction(v, l) {
+						if v, open := vals[d]; open && v != nil && !used[d] && directInduction(v, l) {
 							label = d
 							break
 						}
@@ -232,16 +479,18 @@ func loopNests(fn *ssa.Function, depth int, visiting map[*ssa.Function]bool) []l
 					}
 					labels = append(labels, label)
 				}
-				un := map[string]int{}
+				un := map[string]dimRef{}
 				for d := range in.unresolved {
 					if used[d] {
 						continue
 					}
-					un[d] = -1
-					if v, ok := vals[d]; ok {
-						if pi := paramIndex(fn, stripConv(v)); pi >= 0 {
-							un[d] = pi
+					un[d] = dimRef{-1, -1}
+					if v, ok := vals[d]; ok && v != nil {
+						if ref, ok := dimSource(fn, v); ok {
+							un[d] = ref
 						}
+					} else if ref, ok := passOn[d]; ok {
+						un[d] = ref
 					}
 				}
 				site := in.site
@@ -358,6 +607,12 @@ func runProgression(c *Ctx, prop string) Info {
 		}
 		sort.Strings(missing)
 		construct := "switch " + d.tagExpr
+		if !hasSignatureCallees(d) && !ctl {
+			// a switch over the progression that selects no packet-enumerating function (error text,
+			// logging, naming): whether it lists every constant does not affect the enumeration
+			c.add("EXHAUST-PROG", d.fn, construct, report.OutOfScope, c.P.Pos(d.fn.Pos()), "dispatch over the progression order that does not select a packet-enumerating function: not part of the clause")
+			continue
+		}
 		if len(missing) > 0 {
 			c.add("EXHAUST-PROG", d.fn, construct, report.Violated, c.P.Pos(d.fn.Pos()), fmt.Sprintf("progression constant(s) %v are not handled by this dispatch: a stream using them is enumerated differently (or not at all) on this side", missing))
 		} else {
